@@ -3,7 +3,7 @@
    arguments that re.compile rejects; check_case re-parses the string with the model and compares exactly.
    For rendered cases it also checks that the harness renderer and guard agree with the model's. *)
 From Coq Require Import List Bool NArith.
-From MV Require Import Base.Bytes Gen.FlowFilterAtoms Model.FilterGrammar.
+From MV Require Import Base.Bytes Gen.FlowFilterAtoms Model.FilterGrammar Model.FilterBody.
 Import ListNotations.
 
 Definition atom_eqb (a b : atom) : bool :=
@@ -29,14 +29,23 @@ Fixpoint ast_eqb (a b : ast) : bool :=
 (* src: the tree, style, leading / trailing whitespace the string was rendered from, and the harness's value of
    the guard (atoms_ok && quoting_ok && juxt_top); s: the filter string (UTF-8); bad_bin / bad_str: arguments
    rejected by re.compile as bytes / str patterns; impl: structure returned by flowfilter.parse. *)
+(* Body: operator (0 = b, 1 = bq, 2 = bs), the shape of the real flow, the table of the regex engine's answers
+   (re.search of the pattern, compiled by the harness, on every byte string of the flow) and the verdict of the
+   real filter object on the real flow. *)
 Inductive case :=
+| Body (op : N) (f : flowb) (tbl : list (bytes * bool)) (impl : bool)
 | Case (src : option (expr * style * ws * ws * bool)) (s : bytes) (bad_bin bad_str : list bytes) (impl : option ast).
 
 Definition rex_ok_of (bad_bin bad_str : list bytes) (c a : bytes) : bool :=
   negb (mem_bytes a (if mem_bytes c bin_rex_codes then bad_bin else bad_str)).
 
+Fixpoint lookup (tbl : list (bytes * bool)) (b : bytes) : bool :=
+  match tbl with [] => false | (k, v) :: r => if bytes_eqb k b then v else lookup r b end.
+
 Definition check_case (c : case) : bool :=
   match c with
+  | Body op f tbl impl =>
+      Bool.eqb (match op with 0%N => fbod | 1%N => fbod_request | _ => fbod_response end (lookup tbl) f) impl
   | Case src s bb bs impl =>
       (match src with
        | Some (e, st, lead, trail, g) =>
